@@ -143,8 +143,7 @@ def maxFilterNodes : Nat := {max_nodes}
 def maxFilterBranches : Nat := {max_branches}
 def maxRangeIncludeKeys : Nat := {max_include}
 /-- every evaluation of a composite filter's operand (each call of `filter_by_field_with` made from
-inside its own call tree: {len(limits)} call site(s) in {len(set(f for f, _ in limits))} function(s))
-is handed the literal limit `0` (unbounded) -/
+inside its own call tree) is handed the literal limit `0` (unbounded) -/
 def compositeOperandsUnbounded : Bool := {"true" if unbounded else "false"}
 /-- the callback of the B-tree `Field` scan contains an early `return false` (a stop in key order) -/
 def fieldArmStopsEarly : Bool := {"true" if field_stops_early else "false"}
